@@ -49,9 +49,11 @@ impl LookupFunction<&StringName, Function> for Context {
     fn function(&self, function: &StringName, pos: Position) -> TypeResult<Function> {
         let generics = HashMap::new();
 
-        // if there are multiple functions with the same name, first defined takes precedence
+        // if there are multiple functions with the same name, those defined by the user take
+        // precedence over built-in ones, and of those the first defined
         let same_name = self.functions.iter().filter(|c| &c.name == function);
-        let first = same_name.min_by_key(|c| (c.pos.start.line, c.pos.start.pos, c.arguments.len()));
+        let first = same_name
+            .min_by_key(|c| (c.is_py_type, c.pos.start.line, c.pos.start.pos, c.arguments.len()));
 
         if let Some(generic_fun) = first {
             Function::try_from((generic_fun, &generics, pos))
